@@ -58,6 +58,60 @@ def symmetry(ctx, rep, rule, method):
     rep.floor(rule, 'family methods normalised', n, 3)
 
 
+ONES = {"('call', 'ones', ('BATCH',))", "('call', 'ones', ('shape', ('name', 'U')))", "('call', 'ones', ('shape', ('name', 'V')))",
+        "('call', 'full', ('BATCH',), ('num', 1))"}
+SHORTCUT = {'cumulative_distribution': ('u * v', lambda f: f == "('*', ('name', 'U'), ('name', 'V'))"),
+            'partial_derivative': ('u', lambda f: f == "('name', 'U')"),
+            'probability_density': ('1', lambda f: f in ONES)}
+
+
+def shortcut_consistency(ctx, rep, rule, method):
+    """Sibling cross-check: an early-return shortcut of a family method (the independence value of its parameter) must be
+    the independence copula's value of that method - u*v, u, 1 - unless its guard is `theta == <invalid theta>` (dead)."""
+    from ..exprnf import NF
+    from ..idioms import guard_chain
+    from ..model import const_value, is_self_attr
+    prog = ctx.prog
+    what, accept = SHORTCUT[method]
+    for fam, q in FAMILIES.items():
+        cls = prog.cls(q)
+        fn = cls.methods.get(method)
+        if fn is None:
+            continue
+        names = split_names(prog, fn)
+        if names is None:
+            continue
+        inv = cls.lookup_attr('invalid_thetas')
+        invalid = [const_value(e) for e in inv[1].elts] if inv is not None and isinstance(inv[1], (ast.List, ast.Tuple)) else []
+        nfc = NF(prog, fn, rename={names[0]: 'U', names[1]: 'V'}, batch_names=('U', 'V'))
+        rets = [r for r in walk_no_nested(fn.node) if isinstance(r, ast.Return) and r.value is not None]
+        from ..boolcond import Conds, atoms_of, f_not, implies
+        cd = Conds(prog, fn)
+        for r in rets:
+            reach = cd.reach(r)
+            if reach is None or len(ast.dump(r.value)) > 400:
+                continue
+            keys = [k for k in atoms_of(reach) if 'theta' in k]
+            if not keys:
+                continue
+            eqs = [k for k in keys if k.startswith('eq[')]
+            pinned = [k for k in eqs if implies(reach, ('atom', k))]          # reached only when theta == c
+            excluded = [k for k in keys if implies(reach, f_not(('atom', k)))]  # reached only when the test on theta fails
+            if not pinned and len(excluded) == len(keys):
+                continue  # the general formula
+            consts = [x for k in pinned for x in k[3:-1].split('|') if 'theta' not in x]
+            dead = bool(pinned) and any(c_ in {repr(v) for v in invalid} | {str(v) for v in invalid} for c_ in consts)
+            if dead:
+                rep.ok(rule, fn, r, f'{fam}.{method}: shortcut guarded by theta == {invalid} is unreachable after check_fit()', construct=f'{fam}.{method} shortcut')
+                continue
+            form = repr(nfc.nf(r.value))
+            if 'opaque' in form:
+                rep.undecided(rule, fn, r, f'{fam}.{method}: value of the shortcut not normalised', construct=f'{fam}.{method} shortcut')
+            else:
+                rep.check(rule, fn, r, accept(form), f'{fam}.{method}: the independence shortcut returns {what}',
+                          f'{fam}.{method}: the shortcut `{short(r.value, 50)}` is not the independence value {what} of this method', construct=f'{fam}.{method} shortcut')
+
+
 def row_independence(ctx, rep, rule, methods):
     prog = ctx.prog
     n = 0
@@ -133,6 +187,8 @@ def run(ctx, rep):
     n = ivcases.run_family_clauses(ctx, rep, 'D4.values', 'cumulative_distribution', ivcases.cdf_clauses())
     rep.floor('D4.values', 'family x clause evaluations', n, 21)
     symmetry(ctx, rep, 'D1.sym', 'cumulative_distribution')
+    rep.rule('D5.shortcut', 'an early-return shortcut of a family CDF is the independence value u * v (sibling cross-check), unless its guard is an invalid theta')
+    shortcut_consistency(ctx, rep, 'D5.shortcut', 'cumulative_distribution')
     row_independence(ctx, rep, 'D2.rows', ['cumulative_distribution', 'percent_point'])
     l1(ctx, rep, rule='D3.guard', only_classes=set(FAMILIES.values()) | {'copulas.bivariate.base.Bivariate'})
     # check_fit validates theta
